@@ -212,6 +212,24 @@ func (e *Engine) lemmaCtx(l *Lemma) (fc *FnCtx, err error) {
 		}
 	}
 	env := &Env{fc: fc, heap: &fc.entry, old: &fc.entry, bound: bound, lookup: func(string) (Val, bool) { return Val{}, false }}
+	if l.Induc != "" {
+		// strong induction on the integer parameter v: assume the statement for every 0 <= v2 < v
+		// (for v < 0 the hypothesis is empty, so the statement is proved outright there)
+		iv, ok := bound[l.Induc]
+		if !ok || iv.K != KInt {
+			fc.fail("induct: %s is not an integer parameter", l.Induc)
+		}
+		fc.nfresh++
+		q := fmt.Sprintf("ih!q%d", fc.nfresh)
+		b2 := map[string]Val{}
+		for k, v := range bound {
+			b2[k] = v
+		}
+		b2[l.Induc] = intVal(q)
+		env2 := &Env{fc: fc, heap: &fc.entry, old: &fc.entry, bound: b2, lookup: func(string) (Val, bool) { return Val{}, false }}
+		ih := fc.evalBool(l.C.E, env2)
+		fc.assert(fmt.Sprintf("(forall ((%s Int)) (=> (and (<= 0 %s) (< %s %s)) %s))", q, q, q, iv.S(), ih))
+	}
 	f := fc.evalBool(l.C.E, env)
 	ob := fc.oblige("lemma", l.Name, f, 0, &l.C)
 	ob.Name = "lemma " + l.Name
@@ -256,7 +274,7 @@ func (fc *FnCtx) useLemmas() {
 				bound[p.Name] = v
 			}
 			env2 := &Env{fc: fc, heap: &fc.entry, old: &fc.entry, bound: bound, lookup: func(string) (Val, bool) { return Val{}, false }}
-			fc.assertGlobal(fc.evalBool(l.C.E, env2))
+			fc.addLemmaAssert(fc.evalBool(l.C.E, env2))
 			continue
 		}
 		var qs []string
@@ -282,9 +300,52 @@ func (fc *FnCtx) useLemmas() {
 		env := &Env{fc: fc, heap: &fc.entry, old: &fc.entry, bound: bound, lookup: func(string) (Val, bool) { return Val{}, false }}
 		body := fc.evalBool(l.C.E, env)
 		if len(qs) == 0 {
-			fc.assertGlobal(body)
+			fc.addLemmaAssert(body)
 		} else {
-			fc.assertGlobal(fmt.Sprintf("(forall (%s) %s)", strings.Join(qs, " "), body))
+			fc.addLemmaAssert(fmt.Sprintf("(forall (%s) %s)", strings.Join(qs, " "), body))
 		}
 	}
+}
+
+func (fc *FnCtx) addLemmaAssert(text string) {
+	seen := map[string]bool{}
+	var specs []string
+	for _, m := range specSymRe.FindAllString(text, -1) {
+		if !seen[m] {
+			seen[m] = true
+			specs = append(specs, m)
+		}
+	}
+	fc.lemmaAsserts = append(fc.lemmaAsserts, lemmaAssert{text, specs})
+}
+
+// applyLemma adds the instance of a proven lemma at the current program point.
+func (fc *FnCtx) applyLemma(ce *ECall, env *Env) {
+	l := fc.e.lemma(ce.Fn)
+	if l == nil {
+		fc.fail("apply: unknown lemma %q", ce.Fn)
+	}
+	if len(ce.Args) != len(l.Params) {
+		fc.fail("apply %s: %d arguments expected", ce.Fn, len(l.Params))
+	}
+	found := false
+	for _, n := range fc.lemmasUsed {
+		if n == ce.Fn {
+			found = true
+		}
+	}
+	if !found {
+		fc.lemmasUsed = append(fc.lemmasUsed, ce.Fn)
+	}
+	bound := map[string]Val{}
+	for i, p := range l.Params {
+		v := fc.evalExpr(ce.Args[i], env)
+		if p.Type == "seq" || p.Type == "string" {
+			a, o, n := fc.seqOf(v, env.heap)
+			v = Val{K: KStr, T: types.Typ[types.String], C: []string{a, o, n}}
+		}
+		bound[p.Name] = v
+	}
+	env2 := &Env{fc: fc, heap: env.heap, old: &fc.entry, bound: bound, lookup: func(string) (Val, bool) { return Val{}, false }}
+	fc.assumeHere(fc.evalBool(l.C.E, env2))
 }
